@@ -14,12 +14,12 @@ RULE = ('scenarios of 2-4 real threads calling configurables in distinct/shared 
         'free-running stress with a 1us switch interval and sequential singleton/clear histories. '
         'distinct = distinct schedule traces (hash of the hand-over sequence) per scenario')
 TIERS = {
-    'quick': {'workers': 8, 'cases': 14, 'timeout': 900, 'random_runs': 24, 'pct_runs': 12, 'preempt_samples': 60,
+    'quick': {'workers': 8, 'cases': 20, 'timeout': 900, 'random_runs': 24, 'pct_runs': 12, 'preempt_samples': 60,
               'free_runs': 6, 'all_preemptions': False},
     'thorough': {'workers': 16, 'cases': 40, 'timeout': 3400, 'random_runs': 120, 'pct_runs': 60, 'preempt_samples': 0,
                  'free_runs': 30, 'all_preemptions': True},
 }
-REQUIRED_BUCKETS = ['kind:operative', 'kind:singleton', 'kind:sequential', 'policy:random', 'policy:pct', 'policy:preempt',
+REQUIRED_BUCKETS = ['kind:operative', 'kind:singleton', 'kind:sequential', 'kind:clear-across-threads', 'policy:random', 'policy:pct', 'policy:preempt',
                     'mode:free-running', 'window:gin_wrapper', 'window:_config_str', 'window:singleton_value',
                     'singleton:same-name-race', 'singleton:nested-ctor', 'singleton:raising-ctor', 'singleton:different-names',
                     'operative:shared-scope', 'operative:new-keys-during-read', 'reads-checked', 'lock-contended']
@@ -156,6 +156,8 @@ def iter_cases(ctx, rng, n):
       c = gen_operative(rng)
     elif k in (2, 3):
       c = gen_singleton(rng)
+    elif i % 10 == 9:
+      c = {'kind': 'clear-across-threads', 'names': rng.sample(['ua', 'ub', 'uc', 'ua2'], rng.choice([1, 2])), 'workers': rng.choice([1, 2, 3])}
     else:
       c = gen_sequential(rng)
     c['seed'] = rng.randrange(1 << 30)
@@ -427,8 +429,71 @@ def run_sequential(ctx, case):
   ctx.fp('seq', tuple(o[0] + ':' + (o[1] if len(o) > 1 else '') for o in case['ops']))
 
 
+def run_clear_across_threads(ctx, case):
+  """Long-lived worker threads use singletons, another thread clears the configuration, the workers use them again."""
+  import gin
+  ctx.bucket('kind:clear-across-threads')
+  fresh_config(case)
+  use = _S['use']
+  nw = case['workers']
+  first, second, errors = [{} for _ in range(nw)], [{} for _ in range(nw)], []
+  used, go = [threading.Event() for _ in range(nw)], threading.Event()
+
+  def worker(i):
+    try:
+      for nm in case['names']:
+        with gin.config_scope(nm):
+          first[i][nm] = use()
+      used[i].set()
+      if not go.wait(60):
+        raise RuntimeError('handoff timed out')
+      for nm in case['names']:
+        with gin.config_scope(nm):
+          second[i][nm] = use()
+    except BaseException as e:  # pylint: disable=broad-except
+      errors.append(e)
+      used[i].set()
+
+  threads = [threading.Thread(target=worker, args=(i,), daemon=True) for i in range(nw)]
+  for t in threads:
+    t.start()
+  for e in used:
+    if not e.wait(60):
+      raise core.Inconclusive('worker thread did not reach the hand-off point')
+  gin.clear_config()
+  gin.parse_config(BASE_CONFIG)
+  mine = {}
+  for nm in case['names']:
+    with gin.config_scope(nm):
+      mine[nm] = use()
+  go.set()
+  for t in threads:
+    t.join(60)
+  ctx.check(not errors, 'thread-exception:' + (type(errors[0]).__name__ if errors else ''), 'clear across threads: %r' % (errors[:1],))
+  for nm in case['names']:
+    a, b = [], []
+    flatten_objs(mine[nm], a)
+    for i in range(nw):
+      old, new = [], []
+      flatten_objs(first[i].get(nm), old)
+      flatten_objs(second[i].get(nm), new)
+      ctx.count('singleton_identity_checks')
+      ctx.check(bool(new) and not any(x is y for x in new for y in old), 'singleton-survives-clear_config',
+                'thread %d used singleton %s after another thread called clear_config and got the pre-clear object' % (i, nm))
+      ctx.check(bool(new) and len(new) == len(a) and all(x is y for x, y in zip(new, a)), 'singleton-differs-between-threads-after-clear',
+                'after clear_config, thread %d and the clearing thread hold different objects for singleton %s' % (i, nm))
+  ctx.fp('clear-threads', tuple(case['names']), nw)
+
+
 def run_case(ctx, case):
-  if case['kind'] == 'sequential':
+  if case['kind'] == 'clear-across-threads':
+    from gin import config as gc
+    sched.Scheduler.restore_locks(_S['undo'])   # free-running threads: the real locks
+    try:
+      run_clear_across_threads(ctx, case)
+    finally:
+      _S['undo'] = _S['sched'].swap_locks(gc)
+  elif case['kind'] == 'sequential':
     run_sequential(ctx, case)
   else:
     run_concurrent(ctx, case)
